@@ -3,7 +3,7 @@
 expected to catch it (quick tier, VERIF_REPO pointing at the worktree), record the verdict in seeded/MATRIX.md, revert."""
 import json, os, subprocess, sys, glob, time
 V = os.path.dirname(os.path.dirname(os.path.abspath(__file__)))
-OVERRIDE = {"C01-B": "C11", "C06-B": "C11", "C04-H": "C17"}  # history / auth-pipeline defects delivered under another property
+OVERRIDE = {"C01-B": "C11", "C06-B": "C11", "C04-H": "C17", "C15-I": "C20"}  # history / auth-pipeline defects delivered under another property
 
 
 def sh(cmd, **kw):
@@ -43,6 +43,8 @@ def main():
     par = int(([a[2:] for a in sys.argv[1:] if a.startswith("-j")] or ["3"])[0])
     head = sh("git -C /repo rev-parse HEAD").stdout.strip()
     dirs = [d for d in sorted(glob.glob(os.path.join(V, "seeded", "C*-*"))) if not only or os.path.basename(d) in only]
+    # a change that a later fix: commit made ineffective is kept for the record but cannot be detected any more
+    dirs = [d for d in dirs if not json.load(open(os.path.join(d, "meta.json"))).get("neutralised_by_fix")]
     q = queue.Queue()
     for d in dirs:
         q.put(d)
